@@ -2,6 +2,8 @@
 canonical answer per line on stdout.  Imports only Model/, Spec/, Generated/. -/
 import Driver.Util
 import Driver.FileOps
+import Driver.Id3Util
+import Driver.Ogg
 open Driver
 
 def dispatch (line : String) : String :=
@@ -11,6 +13,9 @@ def dispatch (line : String) : String :=
     let a := parseArgs rest
     match cmd with
     | "fo" => fileOp a
+    | "bp" => bpOp a
+    | "uns" => unsOp a
+    | "ogg" => oggOp a
     | "ping" => "pong"
     | _ => "bad-op"
 
